@@ -63,6 +63,8 @@ def wf_conds(v, run):
         out.append(z3.And(t >= 0, t < run.next_ref))
     elif isinstance(ty, TDict):
         out.append(ty.size(t) >= 0)
+        kd = z3.FreshConst(ty.k.sort(), "k")
+        out.append(z3.ForAll([kd], z3.Implies(z3.Select(ty.has(t), kd), ty.size(t) >= 1)))
     elif isinstance(ty, TSet):
         out.append(ty.size(t) >= 0)
         # finite-set cardinality facts (true of every Python set): a member implies size >= 1
@@ -549,6 +551,9 @@ def contains(run, item, cont, node):
             return z3.BoolVal(False)
         return z3.Or(*[eq_terms(run, item, c) for c in cont.items])
     cont = unopt(run, cont, node, "container")
+    h = run.x.reg.stubs.get(("contains", cont.ty.name if isinstance(cont, Val) else "?"))
+    if h is not None:
+        return h(run, item, cont, node)
     ty = cont.ty
     if ty is TStr:
         item = unopt(run, item, node)
